@@ -1050,6 +1050,13 @@ def rule_rangecoder(facts):
     tmw = Terms(wl)
     wcalls = {blk.idx for blk in wl.calls() if blk.idx in cw.reach and blk.term.args and "Write" in (flow.declared(blk.term) or "") and
               pat.has_field(tmw.of_operand(blk.term.args[0]), "stream")}
+    for blk in wl.calls():
+        cal_ = blk.term.callee
+        hb_ = facts.by_def.get(cal_.target().defk) if (cal_ is not None and cal_.target().local) else None
+        if hb_ is not None and hb_.self_ty is not None and wl.self_ty is not None and hb_.self_ty.name == wl.self_ty.name and blk.idx in cw.reach:
+            ht_ = Terms(hb_)
+            if any(x.term.args and "Write" in (flow.declared(x.term) or "") and pat.has_field(ht_.of_operand(x.term.args[0]), "stream") for x in hb_.calls()):
+                wcalls.add(blk.idx)       # a private flush helper: calling it is flushing
     lows = [0, 1, 0x00FF_FFFF, 0x0100_0000, 0xFEFF_FFFF, 0xFF00_0000, 0xFF00_0001, 0xFFFF_FFFF, 0x1_0000_0000, 0x1_0000_0001,
             0x1_7FFF_FFFF, 0x1_FEFF_FFFF, 0x1_FF00_0000, 0x1_FFFF_FFFF]
     bad = None
@@ -1105,8 +1112,33 @@ def rule_carry(facts):
     fn = short(wl.name)
     writes = [blk for blk in wl.calls() if blk.idx in c.reach and blk.term.args and pat.has_field(tm.of_operand(blk.term.args[0]), "stream")
               and "Write" in (flow.declared(blk.term) or "") and not (flow.declared(blk.term) or "").endswith(("::flush", "::by_ref"))]
+    eb, ec, carry_arg, flush_calls = wl, c, None, []
+    if not writes:
+        # the flush loop may live in a private helper of the encoder that is handed the carry byte
+        for blk in wl.calls():
+            cal = blk.term.callee
+            if cal is None or not cal.target().local or blk.idx not in c.reach:
+                continue
+            hb_ = facts.by_def.get(cal.target().defk)
+            if hb_ is None or hb_.self_ty is None or wl.self_ty is None or hb_.self_ty.name != wl.self_ty.name:
+                continue
+            htm_ = Terms(hb_)
+            hw_ = [x for x in hb_.calls() if x.term.args and pat.has_field(htm_.of_operand(x.term.args[0]), "stream") and
+                   "Write" in (flow.declared(x.term) or "") and not (flow.declared(x.term) or "").endswith(("::flush", "::by_ref"))]
+            u8args = [i for i in range(2, hb_.arg_count + 1) if hb_.locals[i].ty.s == "u8"]
+            if hw_ and len(u8args) == 1 and len(blk.term.args) == hb_.arg_count:
+                flush_calls.append(blk)
+                eb, carry_arg = hb_, u8args[0]
+        if len(flush_calls) == 1:
+            carry_term = tm.of_operand(flush_calls[0].term.args[carry_arg - 1])
+            tm = Terms(eb)
+            ec = cfg(eb)
+            writes = [x for x in eb.calls() if x.idx in ec.reach and x.term.args and pat.has_field(tm.of_operand(x.term.args[0]), "stream")
+                      and "Write" in (flow.declared(x.term) or "") and not (flow.declared(x.term) or "").endswith(("::flush", "::by_ref"))]
+        else:
+            eb, ec, carry_arg, flush_calls = wl, c, None, []
     r.sites = len(writes)
-    r.need("a write to the sink in write_low", len(writes) >= 1)
+    r.need("a write to the sink in write_low (or in the one helper it hands the carry to)", len(writes) >= 1)
     SAMPLES = [(ca, lo) for ca in (0x00, 0x7F, 0xFE, 0xFF) for lo in (0x0, 0x12345678, 0xFEFFFFFF, 0x1_0000_0000, 0x1_00FF_FFFF, 0x1_FEFF_FFFF)]
 
     def leaf_of(ca, lo):
@@ -1115,6 +1147,8 @@ def rule_carry(facts):
                 return ca
             if q[0] == "field" and q[1] == "low":
                 return lo
+            if carry_arg is not None and q[0] == "arg" and q[1] == carry_arg:
+                return (lo >> 32) & 0xFF
             if q[0] == "call" and q[1].endswith("::wrapping_add") and len(q[2]) == 2:
                 return (pat.eval_term(q[2][0], lf) + pat.eval_term(q[2][1], lf)) & 0xFF
             raise pat.NotEvaluable(q)
@@ -1141,7 +1175,7 @@ def rule_carry(facts):
 
     for blk in writes:
         name = flow.declared(blk.term) or flow.callee(blk.term) or ""
-        where = pat.where(wl, blk.idx)
+        where = pat.where(eb, blk.idx)
         if not name.endswith("write_u8") or len(blk.term.args) < 2:
             r.bad("%s|emit-form" % fn, "write_low hands the sink something other than single bytes (%s): cannot establish that each "
                   "emitted byte is the cached byte or a pending 0xFF plus the carry" % name.split("::")[-1], where, "unverifiable")
@@ -1165,14 +1199,14 @@ def rule_carry(facts):
             r.bad("%s|emit-value" % fn, "the bytes emitted are not exactly {cache + carry, 0xFF + carry}: %s" % flow.show(t)[:120], where)
             continue
         # first the cached byte, then 0xFF: every definition of the carried local outside the loop is `cache`, inside it 0xFF
-        loop = c.loop_blocks_of(blk.idx)
+        loop = ec.loop_blocks_of(blk.idx)
         if not loop:
             r.bad("%s|emit-loop" % fn, "the byte is emitted outside a loop: pending 0xFF bytes are not flushed", where)
             continue
         order_ok = True
         seen_defs = 0
-        for b2 in wl.blocks:
-            if b2.cleanup or b2.idx not in c.reach:
+        for b2 in eb.blocks:
+            if b2.cleanup or b2.idx not in ec.reach:
                 continue
             for st in b2.stmts:
                 if st.k != "assign" or st.place.proj:
@@ -1192,24 +1226,24 @@ def rule_carry(facts):
         # counting: one decrement of cachesz on every way round the loop, exit on cachesz == 0 only (`?` aside)
         decs = []
         for x in sorted(loop):
-            for st in wl.blocks[x].stmts:
+            for st in eb.blocks[x].stmts:
                 if st.k == "assign" and st.place.proj and st.place.proj[-1][0] == "field" and st.place.proj[-1][2] == "cachesz":
                     decs.append((x, tm.of_rvalue(st.rv, 0)))
         okc = len(decs) == 1 and decs[0][1][0] == "Sub" and pat.has_field(decs[0][1][1], "cachesz") and decs[0][1][2] == ("const", 1)
         if okc:
             d = decs[0][0]
-            heads = [h for h, blocks, _ in c.loops() if blk.idx in blocks]
-            for h, blocks, tails in c.loops():
+            heads = [h for h, blocks, _ in ec.loops() if blk.idx in blocks]
+            for h, blocks, tails in ec.loops():
                 if blk.idx in blocks:
                     for tl in tails:
                         # from the write to the back edge the decrement is passed
-                        if not c.must_pass(blk.idx, [tl], {d}) and d != tl:
+                        if not ec.must_pass(blk.idx, [tl], {d}) and d != tl:
                             okc = False
             for x in sorted(loop):
-                for y in c.succ[x]:
+                for y in ec.succ[x]:
                     if y in loop:
                         continue
-                    tx = tm.of_operand(wl.blocks[x].term.discr) if wl.blocks[x].term.k == "switch" else None
+                    tx = tm.of_operand(eb.blocks[x].term.discr) if eb.blocks[x].term.k == "switch" else None
                     if tx is not None and tx[0] == "discr":
                         continue   # the `?` on the write
                     s_ = pat.cmp_sides(tx) if tx is not None else None
@@ -1221,12 +1255,13 @@ def rule_carry(facts):
         r.ok("provenance", {"emitted": "cache + carry, then 0xFF + carry, cachesz bytes"})
     # after the flush the new cached byte is bits 24..31 of low
     st_cache = []
+    tmw_ = Terms(wl)
     for b2 in wl.blocks:
         if b2.cleanup or b2.idx not in c.reach:
             continue
         for st in b2.stmts:
             if st.k == "assign" and st.place.proj and st.place.proj[-1][0] == "field" and st.place.proj[-1][2] == "cache":
-                st_cache.append((b2.idx, tm.of_rvalue(st.rv, 0)))
+                st_cache.append((b2.idx, tmw_.of_rvalue(st.rv, 0)))
     r.sites += len(st_cache)
     good = False
     if len(st_cache) == 1:
@@ -1234,7 +1269,16 @@ def rule_carry(facts):
             good = all(pat.eval_term(st_cache[0][1], leaf_of(0, lo)) == ((lo >> 24) & 0xFF) for _, lo in SAMPLES)
         except (pat.NotEvaluable, pat.Overflow):
             good = False
-        if good and writes:
+        if good and flush_calls:
+            # the helper is given (low >> 32) as u8, and the store comes after the call, in the branch that makes it
+            sb = st_cache[0][0]
+            fc = flush_calls[0].idx
+            try:
+                good = all(pat.eval_term(carry_term, leaf_of(0, lo)) == (lo >> 32) & 0xFF for _, lo in SAMPLES)
+            except (pat.NotEvaluable, pat.Overflow):
+                good = False
+            good = good and c.must_pass(0, [sb], {fc}) and not c.some_path(sb, [fc])
+        elif good and writes:
             # stored in the flush branch only, after the bytes went out: every path to the store runs through the head of the
             # flush loop, and no write follows it
             sb = st_cache[0][0]
